@@ -306,6 +306,40 @@ fn lex_catch(_source: &[char]) -> Option<FoundToken> {
     })
 }
 
+/// Verification hooks (see `crate::verif_hooks`): public forwarders to the private lexers.
+#[cfg(kani)]
+pub mod verif {
+    use super::FoundToken;
+
+    pub fn lex_url(source: &[char]) -> Option<FoundToken> {
+        super::lex_url(source)
+    }
+    pub fn lex_email_address(source: &[char]) -> Option<FoundToken> {
+        super::lex_email_address(source)
+    }
+    pub fn lex_hostname_token(source: &[char]) -> Option<FoundToken> {
+        super::lex_hostname_token(source)
+    }
+    pub fn lex_word(source: &[char]) -> Option<FoundToken> {
+        super::lex_word(source)
+    }
+    pub fn lex_newlines(source: &[char]) -> Option<FoundToken> {
+        super::lex_newlines(source)
+    }
+    pub fn lex_tabs(source: &[char]) -> Option<FoundToken> {
+        super::lex_tabs(source)
+    }
+    pub fn lex_spaces(source: &[char]) -> Option<FoundToken> {
+        super::lex_spaces(source)
+    }
+    pub fn lex_punctuation(source: &[char]) -> Option<FoundToken> {
+        super::lex_punctuation(source)
+    }
+    pub fn lex_catch(source: &[char]) -> Option<FoundToken> {
+        super::lex_catch(source)
+    }
+}
+
 #[cfg(test)]
 mod tests {
     use crate::Punctuation;
